@@ -55,6 +55,7 @@ Props ==
   /\ Chk("LG_MintOut", LG_MintOut) /\ Chk("LG_NonNeg", LG_NonNeg') /\ Chk("LG_Supply", LG_Supply) /\ Chk("LG_FailFree", LG_FailFree)
   /\ Chk("LG_StorKeeps", LG_StorKeeps) /\ Chk("LG_GaugeHold", LG_GaugeHold)
   /\ Chk("LG_Plans", PlansSound({P.plans[i] : i \in DOMAIN P.plans}))
+  /\ Chk("LG_Files", FilesSound(P.files))
   /\ Chk("LG_Auth", AuthStable(auth, P.auth, IF "signer" \in DOMAIN E THEN E.signer ELSE "none"))
   \* non-trivial steps per property clause
   /\ NT("LG_C03", E.a = "block" /\ \E d \in Denoms : D("gauges", d) < 0)
@@ -65,6 +66,7 @@ Props ==
   /\ NT("LG_C15", Kind \in {"initprovider", "shutdown"})
   /\ NT("LG_C16", Url("rns.MsgRegisterName") \/ Url("rns.MsgRegister"))
   /\ NT("LG_C11", E.a = "tx" /\ E.ok)
+  /\ NT("LG_C17", E.a = "block" \/ (E.ok /\ (Url("storage.MsgPostFile") \/ Url("storage.MsgDeleteFile") \/ Url("storage.MsgPostProof") \/ Url("storage.MsgReport"))))
   /\ NT("LG_C07", E.a = "block" \/ (E.ok /\ (Url("storage.MsgPostFile") \/ Url("storage.MsgDeleteFile") \/ Url("storage.MsgBuyStorage"))))
 
 TStep == /\ E.a \in {"tx", "block"} /\ l' = l + 1
